@@ -100,6 +100,7 @@ type clu struct {
 	names    []string
 	col      models.Collection
 	maxLimit int
+	ports    []int
 }
 
 func freePorts(n int) []int {
@@ -119,13 +120,47 @@ func freePorts(n int) []int {
 	return ps
 }
 
-func newCluster(servers, maxShard, maxLimit int) *clu {
+// deterministic byte stream for uuid.SetRand: shard ids (uuid.New in RPCCreateShard) and with them the
+// rendezvous owners of the shards are then a function of the op lines (ports and seed are recorded on
+// the newcluster line), which makes replays of scenarios with a stopped server faithful
+type detRand struct{ s uint64 }
+
+func (d *detRand) Read(p []byte) (int, error) {
+	for i := range p {
+		d.s += 0x9E3779B97F4A7C15
+		z := d.s
+		z = (z ^ (z >> 30)) * 0xBF58476D1CE4E5B9
+		z = (z ^ (z >> 27)) * 0x94D049BB133111EB
+		p[i] = byte((z ^ (z >> 31)) >> 24)
+	}
+	return len(p), nil
+}
+
+func portsFree(ports []int) bool {
+	for _, p := range ports {
+		l, err := net.Listen("tcp", "127.0.0.1:"+strconv.Itoa(p))
+		if err != nil {
+			return false
+		}
+		l.Close()
+	}
+	return true
+}
+
+func newCluster(servers, maxShard, maxLimit int, ports []int, useed uint64) *clu {
 	dir, err := os.MkdirTemp(tmpBase, "c17-")
 	if err != nil {
 		panic(err)
 	}
 	c := &clu{dir: dir, maxLimit: maxLimit}
-	ports := freePorts(servers)
+	if len(ports) != servers || !portsFree(ports) {
+		if len(ports) > 0 {
+			fmt.Fprintln(os.Stderr, "c17: recorded ports are not free, shard owners may differ from the recording")
+		}
+		ports = freePorts(servers)
+	}
+	c.ports = ports
+	uuid.SetRand(&detRand{s: useed})
 	for _, p := range ports {
 		c.names = append(c.names, "127.0.0.1:"+strconv.Itoa(p))
 	}
@@ -252,6 +287,8 @@ func (c *clu) down(i int) bool { return !c.alive[c.owner(c.col.ShardIds[i])] }
 type op struct {
 	kind                     string
 	servers, maxShard, maxLi int
+	ports                    []int
+	useed                    uint64
 	entry                    int
 	ids                      []int
 	pts                      [][2]int64 // id, k
@@ -289,7 +326,7 @@ func (o op) line() string {
 	case "curate":
 		return fmt.Sprintf("curate complete=%s all=%s succ=%s", vh.B01(o.complete), fmtInts(o.all), fmtInts(o.succ))
 	case "newcluster":
-		return fmt.Sprintf("newcluster servers=%d maxshard=%d maxlimit=%d", o.servers, o.maxShard, o.maxLi)
+		return fmt.Sprintf("newcluster servers=%d maxshard=%d maxlimit=%d ports=%s useed=%d", o.servers, o.maxShard, o.maxLi, fmtInts(o.ports), o.useed)
 	case "insert":
 		return fmt.Sprintf("insert entry=%d pts=%s", o.entry, fmtPts(o.pts))
 	case "stop":
@@ -352,6 +389,8 @@ func parseLine(line string) (op, bool) {
 		o.all, o.succ = parseInts(kv("all")), parseInts(kv("succ"))
 	case "newcluster":
 		o.servers, o.maxShard, o.maxLi = num("servers"), num("maxshard"), num("maxlimit")
+		o.ports = parseInts(kv("ports"))
+		o.useed, _ = strconv.ParseUint(kv("useed"), 10, 64)
 	case "insert":
 		o.entry, o.pts = num("entry"), parsePts(kv("pts"))
 	case "down":
@@ -688,7 +727,8 @@ func (r *runner) exec(o op) {
 		if r.c != nil {
 			r.c.close()
 		}
-		r.c = newCluster(o.servers, o.maxShard, o.maxLi)
+		r.c = newCluster(o.servers, o.maxShard, o.maxLi, o.ports, o.useed)
+		o.ports = r.c.ports
 		r.where = map[int]int{}
 		r.lines = nil
 		r.emit("newcluster", o.line(), "ok", false)
@@ -966,7 +1006,7 @@ func genScenario(rng *vh.Rng, big bool) []op {
 		nPoints = maxShard*(2+rng.Intn(2)) + rng.Intn(10)
 		maxLimit = vh.Pick(rng, []int{75, 75, 0, 20})
 	}
-	ops := []op{{kind: "newcluster", servers: servers, maxShard: maxShard, maxLi: maxLimit}}
+	ops := []op{{kind: "newcluster", servers: servers, maxShard: maxShard, maxLi: maxLimit, useed: rng.U64() >> 1}}
 	alive := make([]bool, servers)
 	for i := range alive {
 		alive[i] = true
